@@ -49,6 +49,7 @@ def run(ctx, rep):
     rep.guarded('L9.l9', l9, ctx, rep)
     rep.guarded('L10.l10', l10, ctx, rep)
     rep.guarded('L11.l11', l11, ctx, rep)
+    rep.guarded('L12.l12', l12, ctx, rep)
 
 
 # --------------------------------------------------------------------- L1 check_fit dominance
@@ -222,6 +223,12 @@ def l2(ctx, rep):
         return None
 
     for c in calls:
+        # the wrapped fit receives everything the wrapper received: positional rest and keywords (fit(X, truncated=2) must not lose `truncated`)
+        fw_args = w.vararg is None or any(isinstance(a_, ast.Starred) and isinstance(a_.value, ast.Name) and a_.value.id == w.vararg for a_ in c.args)
+        fw_kw = w.kwarg is None or any(k_.arg is None and isinstance(k_.value, ast.Name) and k_.value.id == w.kwarg for k_ in c.keywords)
+        rep.check('L2.guards', w, c, fw_args and fw_kw, 'the wrapped call forwards *args and **kwargs',
+                  f'the wrapped call drops {"the keyword arguments" if not fw_kw else "the positional arguments"} of the wrapper: options such as `truncated=` given by keyword never reach fit',
+                  construct='arguments forwarded')
         cd = Conds(prog, w)
         hook = lambda c2, call2: callee_exits(ctx, c2, call2)
         reach = cd.reach(c, callee_hook=hook)
@@ -689,7 +696,12 @@ def l6(ctx, rep, rule='L6.clone'):
                       and not isinstance(n_.args[1], ast.Constant) for n_ in walk_no_nested(w.node)) \
             or any(isinstance(n_, ast.Call) and isinstance(n_.func, ast.Attribute) and n_.func.attr == 'update' and isinstance(n_.func.value, ast.Attribute)
                    and n_.func.value.attr == '__dict__' for n_ in walk_no_nested(w.node))
-        if {'__args__', '__kwargs__'} <= stores:
+        filtered = [x for x in walk_no_nested(w.node) if isinstance(x, (ast.DictComp, ast.ListComp, ast.GeneratorExp)) and any(g_.ifs for g_ in x.generators)
+                    and any(isinstance(n_, ast.Name) and n_.id in (w.kwarg, w.vararg) for g_ in x.generators for n_ in ast.walk(g_.iter))]
+        if filtered:
+            rep.bad(rule, w, filtered[0], f'`{short(filtered[0], 70)}` records only some of the constructor arguments: an option whose value fails the filter (0, False, an empty container) is '
+                    'missing from the clone that get_instance builds', construct='store_args wrapper')
+        elif {'__args__', '__kwargs__'} <= stores:
             rep.ok(rule, w, w.node.name, 'store_args sets __args__ and __kwargs__', construct='store_args wrapper')
         elif dynamic:
             rep.undecided(rule, w, w.node.name, 'store_args sets attributes under computed names: which ones is not derived', construct='store_args wrapper')
@@ -910,3 +922,42 @@ def l11(ctx, rep):
                     rep.ok('L11.classstate', m, a, f'self.{attr} aliases the class-level `{v.attr}` but nothing writes into it in place', construct=cons)
     if n == 0:
         rep.ok('L11.classstate', prog.method('copulas.univariate.base.Univariate', 'fit'), 'classes', 'no class-level mutable container is bound to an instance attribute', construct='class-level containers')
+
+
+def l12(ctx, rep):
+    """The hooks that produce the fitted parameters (`_fit`, `_fit_constant`) compute them from X and the constructor options: a read of
+    `self._params` before the hook (or a self-method it calls) has assigned it reads what the PREVIOUS fit left - or, before any fit, a
+    class-level default that every instance shares."""
+    prog = ctx.prog
+    mw = MustWrite(ctx)
+    rep.rule('L12.history', 'no parameter-producing hook (_fit / _fit_constant) reads or updates self._params before assigning it: the fitted parameters do not depend on an earlier fit '
+             'and are not written into a dict shared through the class')
+    n = 0
+    for cls in model_classes(prog):
+        for hname in ('_fit', '_fit_constant'):
+            m = cls.methods.get(hname)
+            if m is None or not m.self_name:
+                continue
+            n += 1
+            first_store = None
+            for st in sorted([x for x in walk_no_nested(m.node) if isinstance(x, (ast.Assign, ast.Expr))], key=lambda x: (x.lineno, x.col_offset)):
+                if isinstance(st, ast.Assign) and any(is_self_attr(t, m.self_name, '_params') for t in st.targets):
+                    first_store = first_store or st
+                elif isinstance(st, ast.Expr) and isinstance(st.value, ast.Call) and is_self_attr(st.value.func, m.self_name):
+                    callee = cls.lookup(st.value.func.attr)
+                    if callee is not None and '_params' in mw.must(cls, callee):
+                        first_store = first_store or st
+            pos0 = (first_store.lineno, first_store.col_offset) if first_store is not None else (10 ** 9, 0)
+            early = [x for x in walk_no_nested(m.node) if is_self_attr(x, m.self_name, '_params') and isinstance(x.ctx, ast.Load) and (x.lineno, x.col_offset) < pos0
+                     and not (first_store is not None and any(y is x for y in ast.walk(first_store)))]
+            cons = f'{cls.name}.{hname}: parameters computed afresh'
+            if early:
+                x = early[0]
+                par = getattr(x, '_parent', None)
+                write = isinstance(par, ast.Subscript) and isinstance(par.ctx, ast.Store)
+                what = 'writes into the existing self._params dict' if write else 'reads self._params'
+                rep.bad('L12.history', m, stmt_of(x), f'{cls.name}.{hname} {what} before assigning it: the value is what the previous fit left (a re-fitted model differs from a fresh one), or a '
+                        'class-level dict that all instances share', construct=cons)
+            else:
+                rep.ok('L12.history', m, m.node.name, 'self._params is assigned before it is read', construct=cons)
+    rep.floor('L12.history', 'parameter-producing hooks', n, 10)
